@@ -35,7 +35,7 @@ CONTEXTS = [c for c in G.CONTEXTS]
 
 def bounds(tier, seed):
     q = tier == 'quick'
-    return {'structural_tags': len(G.structural_tags()), 'kinds': len(G.KINDS), 'contexts': len(CONTEXTS), 'entry_points': 6,
+    return {'structural_tags': len(G.structural_tags()), 'kinds': len(G.KINDS), 'contexts': len(CONTEXTS), 'typed_parent_contexts': len(G.TYPED_CONTEXTS), 'entry_points': 6,
             'canary_names': len(G.CANARY_NAMES), 'module_names': 'all of sys.modules x dir() (count in coverage.counters.module_names)',
             'module_name_slice': 'index % 8 == seed % 8' if q else 'all'}
 
@@ -157,7 +157,8 @@ def check_doc(T, sub, case, doc, tag_kind, profile, prime=()):
         MON.arm(profile)
         try:
             try:
-                res = ('ok', fn(doc))
+                with secmon.guard():
+                    res = ('ok', fn(doc))
             except yaml.YAMLError as e:
                 res = ('yamlerror', type(e).__name__)
             except BaseException as e:
@@ -191,7 +192,8 @@ PRIME_UNSAFE = (lambda d: yaml.load(d, Loader=yaml.UnsafeLoader), lambda d: yaml
 def _prime(doc, prime):
     for fn in prime:
         try:
-            fn(doc)
+            with secmon.guard():
+                fn(doc)
         except Exception:
             pass
 
@@ -244,7 +246,7 @@ def run_job(job, T):
         tag = G.structural_tags()[job[1]]
         tk = kind_of_tag(tag)
         for kn, ktext in G.KINDS:
-            for c in CONTEXTS:
+            for c in CONTEXTS + (G.TYPED_CONTEXTS if kn in G.TYPED_KINDS else []):
                 doc = G.in_context(c, '%s %s' % (tag, ktext))
                 check_doc(T, 'structural', {'doc': doc, 'tag': tag, 'kind': kn, 'context': c}, doc, tk, profile=True, prime=PRIME_FULL)
         T.sample('structural', {'doc': doc})
@@ -256,7 +258,7 @@ def run_job(job, T):
                 continue
             tag = G.tag_text(prefix + name)
             for kn, ktext in G.KINDS:
-                for c in (CONTEXTS if name.startswith('vf_canary') else ('root', 'map-key', 'aliased', 'merge', 'set-member')):
+                for c in (CONTEXTS + (G.TYPED_CONTEXTS if kn in G.TYPED_KINDS[::2] else []) if name.startswith('vf_canary') else ('root', 'map-key', 'aliased', 'merge', 'set-member')):
                     doc = G.in_context(c, '%s %s' % (tag, ktext))
                     check_doc(T, 'canary-names', {'doc': doc, 'tag': tag, 'kind': kn, 'context': c, 'primed': 'unsafe' if _is_canary(name) else 'full'}, doc, 'noncore', profile=True,
                               prime=PRIME_UNSAFE if _is_canary(name) else PRIME_FULL)
